@@ -187,6 +187,13 @@ func countStats(p *mldsa.Params, st *mldsa.SignStats, honestKey bool) {
 			}
 		}
 	}
+	if st.Hints == p.Omega {
+		lib.Count("hint-weight=omega:accepted")
+		lib.Count("hint-weight=omega:accepted:" + p.Name)
+	}
+	if st.RejHintOmega1 > 0 {
+		lib.CountN("hint-weight=omega+1:rejected", st.RejHintOmega1)
+	}
 	lib.CountN("sign-attempts", st.Attempts)
 	if st.Attempts == 1 {
 		lib.Count("sign-first-attempt-accepted")
@@ -203,7 +210,7 @@ func TestVerifDifferential(t *testing.T) {
 		"crafted:hint-permuted", "crafted:hint-duplicated", "crafted:hint-padding-nonzero",
 		"crafted:hint-count-gt-omega", "crafted:z-at-bound-pos", "crafted:z-below-bound-neg",
 		"crafted:trailing-bytes", "crafted:truncated", "crafted:ctilde-altered")
-	lib.Mandatory("rej-ct0", "crafted-sk-match")
+	lib.Mandatory("rej-ct0", "crafted-sk-match", "hint-weight=omega:accepted", "hint-weight=omega+1:rejected")
 	lib.Mandatory("z-norm-max-valid:accepted-by-spec", "z-norm-at-bound:rejected-by-spec")
 	nk := lib.Scale(4, 20)
 	nm := lib.Scale(40, 200)
@@ -309,6 +316,12 @@ func oneKey(im *impl, k, nm int) {
 			checkVerdict(im, monDiff, "wrong-message", pko, pkb, msg[:len(msg)-1], ctx, want)
 		}
 		checkVerdict(im, monDiff, "wrong-key", opkObj, opkb, msg, ctx, want)
+		for _, bit := range []int{r.Intn(256), 256 + r.Intn(8*(len(pkb)-32)), 8*len(pkb) - 1} {
+			bpk := lib.FlipBit(pkb, bit)
+			if o, err := im.unpackPK(bpk); err == nil {
+				checkVerdict(im, monDiff, "pk-bitflip", o, bpk, msg, ctx, want)
+			}
+		}
 		if p.NIST {
 			checkVerdict(im, monDiff, "wrong-ctx", pko, pkb, msg, append(lib.Clone(ctx), 7)[:min(255, len(ctx)+1)], want)
 			if len(ctx) > 0 {
@@ -413,13 +426,15 @@ func TestVerifHedgedPublicAPI(t *testing.T) {
 
 // ---------------------------------------------------------------- crafted private keys (the ||ct0|| branch)
 
-// TestVerifCraftedT0 signs with private keys whose t0 part is replaced (every 13-bit
-// pattern is a valid t0 coefficient).  Sign_internal is a function of the private key
+// craftedT0 (run from TestVerifDifferential's pool) signs with private keys whose t0
+// part is replaced (every 13-bit pattern is a valid t0 coefficient).  Sign_internal is a function of the private key
 // bytes, so the signatures must still be byte-identical.  With one or two polynomials
 // of t0 set to +-2^12 (the others zero, to keep the hint weight low) the rejection
 // ||c t0|| >= gamma2, which honest keys hit about once in 10^7 attempts, is taken every
 // few signatures for the gamma2 = (q-1)/88 sets.  For gamma2 = (q-1)/32 it cannot be
-// taken at all: tau * 2^12 < gamma2.
+// taken at all: tau * 2^12 < gamma2.  With about omega / E[hints per such polynomial]
+// polynomials set that way the hint weight of an attempt hovers around omega, so both
+// sides of "weight > omega" (weight == omega accepted, omega+1 rejected) are taken.
 func craftedT0Tasks() (tasks []func()) {
 	nk := lib.Scale(3, 12)
 	for i := 0; i < len(impls)*nk; i++ {
@@ -430,94 +445,91 @@ func craftedT0Tasks() (tasks []func()) {
 }
 
 func craftedT0(im *impl, k int) {
-	{
-		const mon = "TestVerifDifferential/CraftedT0"
-		p := im.p
-		nm := lib.Scale(8, 30)
-		if p.Gamma2 == (mldsa.Q-1)/88 && k%3 != 1 {
-			nm = lib.Scale(60, 200)
-		}
-		r := lib.NewRng("c04/t0/"+p.Name, k)
-		seed := r.Bytes(32)
-		pkb, skb := p.KeyGen(seed)
-		skb = lib.Clone(skb)
-		t0off := len(skb) - 32*mldsa.D*p.K
-		// number of t0 polynomials set to +-2^12: 1 or 2 (few hints, so the ||ct0|| check
-		// decides), or about omega / E[hints per such polynomial] (hint weight near omega)
-		per := 256 * 0.8 * 4096 * math.Sqrt(float64(p.Tau)) / float64(2*p.Gamma2)
-		np := []int{1, int(float64(p.Omega)/per + 0.5), 2}[k%3]
-		mode := []string{"t0-extreme-few", "t0-extreme-hint-heavy", "t0-extreme-few"}[k%3]
-		if k%6 == 5 {
-			mode = "t0-random"
-			r.Read(skb[t0off:])
-		} else {
-			// coefficient encoding 0 -> +2^12, 8191 -> -(2^12-1)
-			var enc []byte
-			for a := 0; a < p.K; a++ {
-				var q mldsa.Poly
-				for j := range q {
-					if a >= np {
-						break
-					}
-					if r.Bool() {
-						q[j] = 1 << 12
-					} else {
-						q[j] = mldsa.Q - (1<<12 - 1)
-					}
+	const mon = "TestVerifDifferential/CraftedT0"
+	p := im.p
+	nm := lib.Scale(8, 30)
+	if (p.Gamma2 == (mldsa.Q-1)/88 && k%3 != 1) || k%6 == 1 {
+		nm = lib.Scale(60, 200)
+	}
+	r := lib.NewRng("c04/t0/"+p.Name, k)
+	seed := r.Bytes(32)
+	pkb, skb := p.KeyGen(seed)
+	skb = lib.Clone(skb)
+	t0off := len(skb) - 32*mldsa.D*p.K
+	// number of t0 polynomials set to +-2^12: 1 or 2 (few hints, so the ||ct0|| check
+	// decides), or about omega / E[hints per such polynomial] (hint weight near omega)
+	per := 256 * 0.8 * 4096 * math.Sqrt(float64(p.Tau)) / float64(2*p.Gamma2)
+	np := []int{1, int(float64(p.Omega)/per + 0.5), 2}[k%3]
+	mode := []string{"t0-extreme-few", "t0-extreme-hint-heavy", "t0-extreme-few"}[k%3]
+	if k%6 == 5 {
+		mode = "t0-random"
+		r.Read(skb[t0off:])
+	} else {
+		// coefficient encoding 0 -> +2^12, 8191 -> -(2^12-1)
+		var enc []byte
+		for a := 0; a < p.K; a++ {
+			var q mldsa.Poly
+			for j := range q {
+				if a >= np {
+					break
 				}
-				enc = append(enc, mldsa.BitPack(&q, 1<<12-1, 1<<12)...)
+				if r.Bool() {
+					q[j] = 1 << 12
+				} else {
+					q[j] = mldsa.Q - (1<<12 - 1)
+				}
 			}
-			copy(skb[t0off:], enc)
+			enc = append(enc, mldsa.BitPack(&q, 1<<12-1, 1<<12)...)
 		}
-		skObj, err := im.unpackSK(skb)
-		if err != nil {
-			viol(im, mon, "unpack-own-key-failed", mode, "sk", skb)
-			return
+		copy(skb[t0off:], enc)
+	}
+	skObj, err := im.unpackSK(skb)
+	if err != nil {
+		viol(im, mon, "unpack-own-key-failed", mode, "sk", skb)
+		return
+	}
+	if b := im.packSK(skObj); !lib.Eq(b, skb) {
+		viol(im, mon, "keygen-mismatch", "repack-"+mode, "sk", skb, "repacked", b)
+	}
+	pkObj, _ := im.unpackPK(pkb)
+	zero := make([]byte, 32)
+	for m := 0; m < nm; m++ {
+		msg := r.Bytes(r.Intn(100))
+		ctx := genCtx(r, p)
+		mp, _ := p.MPrime(ctx, msg)
+		var st mldsa.SignStats
+		want := p.SignInternal(skb, mp, zero, &st)
+		countStats(p, &st, false)
+		lib.Case([]byte("crafted-sk"), []byte(p.Name), skb, ctx, msg)
+		var got []byte
+		pan := lib.Try("SignTo-crafted-sk:"+p.Name, skb, func() { got, _ = im.sign(skObj, msg, ctx, false) })
+		if pan != nil && st.Attempts >= 576 {
+			// circl gives up after 575 attempts (FIPS 204 Appendix C permits a bound)
+			lib.Count("circl-attempt-cap-reached")
+			lib.Note("%s: circl's 575-attempt cap reached with a crafted t0 (reference needs %d attempts)", p.Name, st.Attempts)
+			continue
 		}
-		if b := im.packSK(skObj); !lib.Eq(b, skb) {
-			viol(im, mon, "keygen-mismatch", "repack-"+mode, "sk", skb, "repacked", b)
+		if pan != nil {
+			viol(im, mon, "sign-failed", mode, "sk", skb, "msg", msg, "ctx", ctx, "panic", pan.Value)
+			continue
 		}
-		pkObj, _ := im.unpackPK(pkb)
-		zero := make([]byte, 32)
-		for m := 0; m < nm; m++ {
-			msg := r.Bytes(r.Intn(100))
-			ctx := genCtx(r, p)
-			mp, _ := p.MPrime(ctx, msg)
-			var st mldsa.SignStats
-			want := p.SignInternal(skb, mp, zero, &st)
-			countStats(p, &st, false)
-			lib.Case([]byte("crafted-sk"), []byte(p.Name), skb, ctx, msg)
-			var got []byte
-			pan := lib.Try("SignTo-crafted-sk:"+p.Name, skb, func() { got, _ = im.sign(skObj, msg, ctx, false) })
-			if pan != nil && st.Attempts >= 576 {
-				// circl gives up after 575 attempts (FIPS 204 Appendix C permits a bound)
-				lib.Count("circl-attempt-cap-reached")
-				lib.Note("%s: circl's 575-attempt cap reached with a crafted t0 (reference needs %d attempts)", p.Name, st.Attempts)
-				continue
-			}
-			if pan != nil {
-				viol(im, mon, "sign-failed", mode, "sk", skb, "msg", msg, "ctx", ctx, "panic", pan.Value)
-				continue
-			}
-			if !lib.Eq(got, want) {
-				viol(im, mon, "signature-mismatch", "crafted-sk-"+mode, "sk", skb, "msg", msg, "ctx", ctx,
-					"circl", got, "fips204", want, "ref_attempts", st.Attempts, "ref_rej_ct0", st.RejCt0)
-				continue
-			}
-			lib.Count("crafted-sk-match")
-			// t0 no longer matches pk: whatever the specification's verifier says, circl must say too
-			checkVerdict(im, mon, "crafted-sk-signature", pkObj, pkb, msg, ctx, got)
+		if !lib.Eq(got, want) {
+			viol(im, mon, "signature-mismatch", "crafted-sk-"+mode, "sk", skb, "msg", msg, "ctx", ctx,
+				"circl", got, "fips204", want, "ref_attempts", st.Attempts, "ref_rej_ct0", st.RejCt0)
+			continue
 		}
+		lib.Count("crafted-sk-match")
+		// t0 no longer matches pk: whatever the specification's verifier says, circl must say too
+		checkVerdict(im, mon, "crafted-sk-signature", pkObj, pkb, msg, ctx, got)
 	}
 }
 
 // ---------------------------------------------------------------- signatures whose z norm sits on the bound
 
-// TestVerifZBoundary builds, with the reference signer, signatures that satisfy the
+// zBoundary (run from TestVerifDifferential's pool) builds, with the reference signer, signatures that satisfy the
 // verification equation and whose ||z|| is exactly gamma1-beta-1 (valid: must be
 // accepted) or exactly gamma1-beta (must be rejected, and only because of the norm).
 func zBoundaryTasks() (out []func()) {
-	const mon = "TestVerifDifferential/ZBoundary"
 	reps := lib.Scale(1, 4)
 	type task struct {
 		im    *impl
@@ -538,53 +550,46 @@ func zBoundaryTasks() (out []func()) {
 	return
 }
 
-func zBoundary(im0 *impl, valid bool, rep int) {
+func zBoundary(im *impl, valid bool, rep int) {
 	const mon = "TestVerifDifferential/ZBoundary"
-	tk := struct {
-		im    *impl
-		valid bool
-		rep   int
-	}{im0, valid, rep}
-	{
-		im, p := tk.im, tk.im.p
-		class := "z-norm-at-bound"
-		target := p.Gamma1() - p.Beta()
-		if tk.valid {
-			class = "z-norm-max-valid"
-			target--
+	p := im.p
+	class := "z-norm-at-bound"
+	target := p.Gamma1() - p.Beta()
+	if valid {
+		class = "z-norm-max-valid"
+		target--
+	}
+	r := lib.NewRng("c04/zb/"+p.Name+"/"+class, rep)
+	seed := r.Bytes(32)
+	pkb, skb := p.KeyGen(seed)
+	pkObj, _ := im.unpackPK(pkb)
+	rnd := make([]byte, 32)
+	for m := 0; m < 40; m++ {
+		msg := r.Bytes(16)
+		ctx := genCtx(r, p)
+		mp, _ := p.MPrime(ctx, msg)
+		var st mldsa.SignStats
+		sig, ok := p.SignWith(skb, mp, rnd, &st, &mldsa.SignOpts{ZExact: target, MaxAttempts: 3000})
+		lib.CountN("zboundary-search-attempts", st.Attempts)
+		if !ok {
+			continue
 		}
-		r := lib.NewRng("c04/zb/"+p.Name+"/"+class, tk.rep)
-		seed := r.Bytes(32)
-		pkb, skb := p.KeyGen(seed)
-		pkObj, _ := im.unpackPK(pkb)
-		rnd := make([]byte, 32)
-		for m := 0; m < 40; m++ {
-			msg := r.Bytes(16)
-			ctx := genCtx(r, p)
-			mp, _ := p.MPrime(ctx, msg)
-			var st mldsa.SignStats
-			sig, ok := p.SignWith(skb, mp, rnd, &st, &mldsa.SignOpts{ZExact: target, MaxAttempts: 3000})
-			lib.CountN("zboundary-search-attempts", st.Attempts)
-			if !ok {
-				continue
-			}
-			d, n, h := p.VerifyParts(pkb, mp, sig)
-			if !d || !h || n != tk.valid {
-				oracleBroken("boundary witness for %s/%s: decoded=%v norm=%v hash=%v", p.Name, class, d, n, h)
-				return
-			}
-			if tk.valid {
-				lib.Count("z-norm-max-valid:accepted-by-spec")
-			} else {
-				lib.Count("z-norm-at-bound:rejected-by-spec")
-			}
-			lib.Case([]byte(class), []byte(p.Name), sig)
-			checkVerdict(im, mon, class, pkObj, pkb, msg, ctx, sig)
-			lib.Sample(mon, lib.D("scheme", p.Name, "class", class, "z_norm", target, "search_attempts", st.Attempts))
+		d, n, h := p.VerifyParts(pkb, mp, sig)
+		if !d || !h || n != valid {
+			oracleBroken("boundary witness for %s/%s: decoded=%v norm=%v hash=%v", p.Name, class, d, n, h)
 			return
 		}
-		lib.Count("zboundary-witness-not-found:" + p.Name)
+		if valid {
+			lib.Count("z-norm-max-valid:accepted-by-spec")
+		} else {
+			lib.Count("z-norm-at-bound:rejected-by-spec")
+		}
+		lib.Case([]byte(class), []byte(p.Name), sig)
+		checkVerdict(im, mon, class, pkObj, pkb, msg, ctx, sig)
+		lib.Sample(mon, lib.D("scheme", p.Name, "class", class, "z_norm", target, "search_attempts", st.Attempts))
+		return
 	}
+	lib.Count("zboundary-witness-not-found:" + p.Name)
 }
 
 // ---------------------------------------------------------------- generic sign.Scheme API
